@@ -1,6 +1,7 @@
 package eng
 
 import (
+	"fmt"
 	"math"
 	"reflect"
 	"time"
@@ -63,19 +64,38 @@ func (v IVal) Go(wrap *orderLog) any {
 		}
 		return m
 	case "other":
+		switch v.I {
+		case 3: // typed nil pointers to types whose String / Error methods have value receivers
+			return (*time.Time)(nil)
+		case 4:
+			return (*stringerT)(nil)
+		case 5:
+			return (*errorT)(nil)
+		case 6:
+			return stringerT{7}
+		}
 		return otherT{int(v.I)}
 	}
 	panic("IVal.Go " + v.Kind)
 }
 
+// values of "any other dynamic type"
+type stringerT struct{ n int }
+
+func (s stringerT) String() string { return fmt.Sprint("stringer-", s.n) }
+
+type errorT struct{ n int }
+
+func (e errorT) Error() string { return fmt.Sprint("error-", e.n) }
+
 var absentStrings = []string{"", " ", "\t\n", "  \r ", "\u00a0", "\u0085", "\u3000\u2003", "\u1680\u205f ", "\u2028\u2029\u202f"}
 var nearAbsentStrings = []string{"\u200b", " a ", "0", "\xc2", "\xe2\x80", "\u180e", "\x00", "\x1b", "\x1f\x1e", " \x01\t", "\x7f", "\ufeff", "\x08 "} // present: these are not spaces (control characters, zero-width characters); truncated sequences are not spaces
 
-func strV(s string) IVal   { return IVal{Kind: "str", S: s} }
-func intV(i int64) IVal    { return IVal{Kind: "int", I: i} }
-func f64V(f float64) IVal  { return IVal{Kind: "f64", F: f} }
-func boolV(b bool) IVal    { return IVal{Kind: "bool", B: b} }
-func nilV() IVal           { return IVal{Kind: "nil"} }
+func strV(s string) IVal     { return IVal{Kind: "str", S: s} }
+func intV(i int64) IVal      { return IVal{Kind: "int", I: i} }
+func f64V(f float64) IVal    { return IVal{Kind: "f64", F: f} }
+func boolV(b bool) IVal      { return IVal{Kind: "bool", B: b} }
+func nilV() IVal             { return IVal{Kind: "nil"} }
 func timeV(t time.Time) IVal { return IVal{Kind: "time", T: t} }
 
 func (g *Gen) absent() IVal {
@@ -311,7 +331,7 @@ func (g *Gen) wrong() IVal {
 	return Pick(g.R, []IVal{
 		{Kind: "map", M: []IKV{{K: "k", V: intV(1)}}},
 		{Kind: "list", L: []IVal{intV(1)}},
-		{Kind: "other", I: int64(g.R.Intn(3))},
+		{Kind: "other", I: int64(g.R.Intn(7))},
 	})
 }
 
